@@ -351,21 +351,21 @@ type ReadlineEvent struct {
 
 // OS implements interp.OS.
 type OS struct {
-	T         *simrt.Tape
-	Disk      *Disk
-	FileNames []string
-	FileSpecs []*FileSpec
-	ArgsV     []string
-	Env       []string
-	Out, Err  *Term
-	StdinData []byte
-	StdinTerm bool
-	Lines     []Line
-	linePos   int
-	RL        []ReadlineEvent
-	IntCh     chan struct{}
-	Opens     int
-	seq       int
+	T          *simrt.Tape
+	Disk       *Disk
+	FileNames  []string
+	FileSpecs  []*FileSpec
+	ArgsV      []string
+	Env        []string
+	Out, Err   *Term
+	StdinData  []byte
+	StdinTerm  bool
+	Lines      []Line
+	linePos    int
+	RL         []ReadlineEvent
+	IntCh      chan struct{}
+	Opens      int
+	seq        int
 	OnReadline func(ev *ReadlineEvent) // called (in the fq task) when a Readline call starts
 }
 
